@@ -535,22 +535,62 @@ func (t *Thread) evalValue(fr *frame, v ssa.Value) Value {
 		return m
 	case *ssa.MakeSlice:
 		n := t.concInt(t.get(fr, in.Len).(*Term), "makeslice.len", in.Pos())
-		c := t.concInt(t.get(fr, in.Cap).(*Term), "makeslice.cap", in.Pos())
+		et := in.Type().Underlying().(*types.Slice).Elem()
+		var c int
+		var capT *Term
+		if ct := t.get(fr, in.Cap).(*Term); ct.IsConst || in.Cap == in.Len {
+			c = t.concInt(ct, "makeslice.cap", in.Pos())
+		} else {
+			// symbolic capacity (e.g. sized by a user-supplied budget): the runtime's range check is a
+			// fork; in range the capacity is len+0 .. len+K-1 exactly, or "at least len+K" (window)
+			const K = 4
+			if ct.S.W != 64 {
+				ct = e.ts.SExt(ct, 64)
+			}
+			esz := types.SizesFor("gc", "amd64").Sizeof(et)
+			// the runtime panics above maxAlloc (2^48 bytes on linux/amd64) and dies with "fatal error:
+			// out of memory" for anything no machine can back (taken as > 2^40 bytes): both are "the run
+			// neither returns a result nor an error", reported as a panic
+			limit := int64(1) << 40
+			if esz > 1 {
+				limit /= int64(esz)
+			}
+			ts := e.ts
+			nT := ts.BV(64, uint64(int64(n)))
+			inRange := ts.And(ts.Not(ts.BVCmp("bvslt", ct, nT)), ts.Not(ts.BVCmp("bvslt", ts.BV(64, uint64(limit)), ct)))
+			gs := []*Term{ts.Not(inRange)}
+			for j := 0; j < K; j++ {
+				gs = append(gs, ts.Eq(ct, ts.BV(64, uint64(int64(n+j)))))
+			}
+			gs = append(gs, ts.And(inRange, ts.Not(ts.BVCmp("bvslt", ct, ts.BV(64, uint64(int64(n+K)))))))
+			i := e.choose("makeslice.cap@"+t.posOf(in.Pos()), gs)
+			switch {
+			case i == 0:
+				t.goPanicf(in.Pos(), "makeslice: cap out of range (or out of memory)", nil)
+			case i <= K:
+				c = n + i - 1
+			default:
+				c = n + K
+				capT = ct
+			}
+		}
 		if n < 0 || c < n {
 			t.goPanicf(in.Pos(), "makeslice: len out of range", nil)
+		}
+		if esz := types.SizesFor("gc", "amd64").Sizeof(et); int64(c) > (int64(1)<<40)/max(esz, 1) {
+			t.goPanicf(in.Pos(), "makeslice: cap out of range (or out of memory)", nil)
 		}
 		if c > 4096 {
 			e.unsupported("makeslice too large")
 		}
 		save := e.allocHarness
 		e.allocHarness = fr.harness
-		et := in.Type().Underlying().(*types.Slice).Elem()
 		cells := make([]*Cell, c)
 		for i := range cells {
 			cells[i] = e.newCell(e.zero(et))
 		}
 		e.allocHarness = save
-		return Slice{cells: cells, n: n}
+		return Slice{cells: cells, n: n, capT: capT}
 	case *ssa.MakeChan:
 		n := t.concInt(t.get(fr, in.Size).(*Term), "makechan.size", in.Pos())
 		return e.newChan(n)
@@ -1058,11 +1098,17 @@ func (t *Thread) sliceOp(fr *frame, in *ssa.Slice) Value {
 		lo := geti(in.Low, 0)
 		hi := geti(in.High, a.n)
 		mx := geti(in.Max, len(a.cells))
+		if a.capT != nil && (hi > len(a.cells) || mx > len(a.cells)) {
+			e.unsupported("reslicing beyond the modelled window of a symbolic capacity")
+		}
 		if lo < 0 || hi < lo || hi > len(a.cells) || mx < hi || mx > len(a.cells) {
 			t.goPanicf(in.Pos(), "slice bounds out of range", nil)
 		}
 		if a.isNil {
 			return a
+		}
+		if a.capT != nil && in.Max == nil {
+			return Slice{cells: a.cells[lo:mx], n: hi - lo, capT: e.ts.BVBin("bvsub", a.capT, e.ts.BV(64, uint64(int64(lo))))}
 		}
 		return Slice{cells: a.cells[lo:mx], n: hi - lo}
 	case *Cell:
@@ -1270,6 +1316,9 @@ func (t *Thread) callBuiltinClosure(c *Closure, args []Value, pos token.Pos) Val
 	case "cap":
 		switch a := t.conc(args[0]).(type) {
 		case Slice:
+			if a.capT != nil {
+				return a.capT
+			}
 			return ts.BV(64, uint64(len(a.cells)))
 		case *ChanObj:
 			if a == nil {
@@ -1292,7 +1341,10 @@ func (t *Thread) callBuiltinClosure(c *Closure, args []Value, pos token.Pos) Val
 				t.accessCell(s.cells[s.n+i], true, pos)
 				e.storeInto(s.cells[s.n+i], e.copyVal(add.cells[i].v))
 			}
-			return Slice{cells: s.cells, n: s.n + add.n}
+			return Slice{cells: s.cells, n: s.n + add.n, capT: s.capT}
+		}
+		if s.capT != nil {
+			e.unsupported("append beyond the modelled window of a symbolic capacity")
 		}
 		nc := 2 * len(s.cells)
 		if nc < s.n+add.n {
